@@ -265,9 +265,10 @@ func (s *st) appendTx(ids []int, stale bool, ooo bool) bool {
 	// oracle (2): the returned ref belongs to the labels passed; refs are not reissued
 	live := s.db.Head().VerifSeriesRefs()
 	for _, o := range outs {
-		if prev, ok := s.handed[o.ref]; ok && prev != o.id {
-			s.c.Violatef("ref-handed-out-for-two-label-sets-in-one-lifetime", "config {%s}: ref %d was returned for label set id %d and, in the same process lifetime, for id %d\nhistory: %s", s.cfg, o.ref, prev, o.id, s.history())
-			return false
+		if _, inThisLifetime := s.handed[o.ref]; !inThisLifetime && len(s.ever[o.ref]) > 0 && !s.everHad(o.ref, o.id) {
+			// handed out in an earlier process lifetime for another label set
+			s.reissued[o.ref] = true
+			s.known("ref-reissued-for-another-label-set-after-restart", "config {%s}: Append(ref=%d, labels of id %d) returned ref %d, which an earlier process lifetime had returned for label set id(s) %v; the harness still holds that ref for them (an outdated reference in the sense of the statement)\nhistory: %s", s.cfg, o.usedRef, o.id, o.ref, s.ever[o.ref], s.history())
 		}
 		if ls, ok := live[uint64(o.ref)]; ok && ls.String() != s.lsets[o.id].String() {
 			other, _ := idOfLabels(ls)
@@ -280,10 +281,9 @@ func (s *st) appendTx(ids []int, stale bool, ooo bool) bool {
 			s.c.Violatef("append-returned-ref-of-another-series", "config {%s}: Append(ref=%d, labels of id %d) returned ref %d which the head maps to %s\nhistory: %s", s.cfg, o.usedRef, o.id, o.ref, trunc(ls.String()), s.history())
 			return false
 		}
-		if len(s.ever[o.ref]) > 0 && !s.everHad(o.ref, o.id) {
-			// handed out in an earlier process lifetime for another label set
-			s.reissued[o.ref] = true
-			s.known("ref-reissued-for-another-label-set-after-restart", "config {%s}: Append(ref=%d, labels of id %d) returned ref %d, which an earlier process lifetime had returned for label set id(s) %v; the harness still holds that ref for them (an outdated reference in the sense of the statement)\nhistory: %s", s.cfg, o.usedRef, o.id, o.ref, s.ever[o.ref], s.history())
+		if prev, ok := s.handed[o.ref]; ok && prev != o.id {
+			s.c.Violatef("ref-handed-out-for-two-label-sets-in-one-lifetime", "config {%s}: ref %d was returned for label set id %d and, in the same process lifetime, for id %d\nhistory: %s", s.cfg, o.ref, prev, o.id, s.history())
+			return false
 		}
 		if !s.everHad(o.ref, o.id) {
 			s.ever[o.ref] = append(s.ever[o.ref], o.id)
